@@ -77,7 +77,7 @@ Proof.
         eapply R_trans; [apply (R_exp st x)|apply (K (with_exp st x))] end.
     + apply R_refl.
   - apply pres_bind; [apply pres_lift|]. intro tg.
-    apply pres_bind; [apply pres_lift | intro; apply pres_on_src].
+    apply pres_bind; [apply pres_lift|]. intro ws. destruct (forallb _ ws); [apply pres_fail|apply pres_on_src].
   - apply pres_bind; [apply pres_dsge_read|]. intro v. apply pres_bind; [apply pres_lift|]. intro l.
     destruct l; [apply pres_fail|]. destruct (znth _ _); [apply pres_ret | apply pres_fail].
 Qed.
